@@ -288,7 +288,7 @@ JOBS['C09'] = Job('C09', mc='MC_Checksum', tag='CKS', drive='cks-run', trace='Tr
                                             {'B': 2, 'W': 4, 'MaxLen': 5, 'R0Kind': '"all"', 'Alphabet': '{0, 1, 2, 3}'},
                                             {'B': 2, 'W': 4, 'MaxLen': 9, 'R0Kind': '"edges"', 'Alphabet': '{0, 1, 2, 3}'},
                                             {'B': 3, 'W': 8, 'MaxLen': 11, 'R0Kind': '"edges"', 'Alphabet': '{0, 1, 7}'},
-                                            {'B': 3, 'W': 4, 'MaxLen': 7, 'R0Kind': '"edges"', 'Alphabet': '{0, 1, 2, 3, 4, 5, 6, 7}'}]},
+                                            {'B': 3, 'W': 4, 'MaxLen': 6, 'R0Kind': '"edges"', 'Alphabet': '{0, 1, 2, 3, 4, 5, 6, 7}'}]},
                               ['Refines', 'NoTruncation', 'ZeroOnlyForZero', 'Consumes', 'ResultIsRfc1071'])],
                   describe='one case = one chunking of a byte string into add_2/4/8/16bytes / add_slice calls (the folded sum of all three register widths is '
                            'validated after every call), a saturated wide register, or one header+payload+address set run through every checksum function of a protocol',
